@@ -86,6 +86,7 @@ def make_method(ctx, src, method, nlab=2, deg=2, remap=False, sparse=False):
     if sparse:
         U = [(labs[0],), (labs[1], labs[2]), tuple(labs)]
     cs = {k: ctx.real_var('c%d' % i) for i, k in enumerate(U)}
+    cnew = ctx.real_var('cnew') if remap == 'newvar' else None
     tname = ENUM_T[src] if method == 'to_enumerated' else METH_T[method]
     tgt_spin = O.is_spin_name(tname)
 
@@ -97,6 +98,9 @@ def make_method(ctx, src, method, nlab=2, deg=2, remap=False, sparse=False):
             present = sorted(M.variables, key=repr)
             if len(present) >= 2:
                 M.set_mapping({l: (i + 1) % len(present) for i, l in enumerate(present)})
+            if remap == 'newvar':
+                # ... and a variable that first appears after the relabelling
+                M[('nv',)] += cnew
         before = O.snapshot(M)
         D = getattr(M, method)()
         n = M.num_binary_variables
@@ -234,6 +238,8 @@ def jobs(tier, seed):
         for method in ['to_qubo', 'to_quso', 'to_pubo', 'to_puso', 'to_enumerated']:
             add('method/%s/%s' % (src, method), 'make_method', dict(src=src, method=method))
         add('method/%s/to_enumerated/n3/remap' % src, 'make_method', dict(src=src, method='to_enumerated', nlab=3, deg=2, remap=True))
+        add('method/%s/%s/n2/remap+newvar' % (src, 'to_qubo' if not O.is_spin_name(src) else 'to_quso'), 'make_method',
+            dict(src=src, method='to_qubo' if not O.is_spin_name(src) else 'to_quso', nlab=2, deg=2, remap='newvar'))
         if src not in ('QUBO', 'QUSO'):
             m = 'to_puso' if O.is_spin_name(src) else 'to_pubo'
             add('method/%s/%s/n3/deg3' % (src, m), 'make_method', dict(src=src, method=m, nlab=3, deg=3))
